@@ -117,6 +117,11 @@ package storage
 //@   props C05 C17
 //@   requires p.s != nil
 //@   ensures result != nil
+// what is written (and sought) through a part's writer lands in the part's own window of the file: the disk side is an
+// offset writer anchored at the part's offset, so part-relative seeks stay part-relative; the shared file is not repositioned
+//@   ensures calls("io.NewOffsetWriter") == 1 && (p.offset < 9223372036854775808 ==> callarg("io.NewOffsetWriter", 0, 1) == p.offset)
+//@   ensures callarg("io.NewOffsetWriter", 0, 0) == ref(p.s.f)
+//@   ensures is(result, *doubleWriter) && ref(result.(*doubleWriter).w1) == callres("io.NewOffsetWriter", 0) && ref(result.(*doubleWriter).w2) == p.buffer
 //@ end
 
 //@ func partDisk.Reader
